@@ -284,6 +284,8 @@ def run(ctx):
     number_syntax(ctx, repo)
     jumps(ctx, repo, dis)
     index_offsets(ctx, repo, dis)
+    from sa.rules import C02round
+    C02round.run(ctx, repo)
     from sa.rules import memo
     memo.run_for(ctx, repo, 'C02')
     return report.finish(ctx, EXPLANATION)
